@@ -83,6 +83,15 @@ func genC03(rng *rand.Rand, idx int, kind string, thorough bool) *c03Spec {
 		sp.Mode = "duplex"
 		sp.MaxWrite = 16384
 		sp.DelayMs = 5
+	case "notices":
+		// loss-free links; while the transfer runs, expiry / firewall notices about datagrams of this very
+		// connection arrive at both ends (what an expired or rejected datagram in transit produces)
+		sp.Hops = 1 + rng.Intn(3)
+		sp.SizeAB = 600000 + int64(rng.Intn(600000))
+		sp.SizeBA = 300000 + int64(rng.Intn(300000))
+		sp.Mode = "duplex"
+		sp.MaxWrite = 16384
+		sp.DelayMs = 5
 	case "bridged":
 		sp.SizeAB = sizes[1+rng.Intn(len(sizes)-1)]
 		sp.SizeBA = sizes[1+rng.Intn(len(sizes)-1)]
@@ -388,6 +397,31 @@ func runC03Trial(run *ev.Run, sp *c03Spec) {
 			w.Wait()
 		}
 	}()
+	// notices: a datagram of this connection "expired in transit" / "was blocked" in either direction
+	noticesSent := 0
+	if sp.Kind == "notices" {
+		if mc, ok := cconn.(interface{ LocalAddr() net.Addr }); ok {
+			la := mc.LocalAddr().String() // "<node>:<ephemeral service>" of the dialing side
+			if i := strings.LastIndex(la, ":"); i > 0 {
+				eph := la[i+1:]
+				relay := m.Node(ids[sp.Hops/2]).Inst()
+				for _, pct := range []int64{25, 55} {
+					for k := 0; k < 3000 && progress.Load() < (sp.SizeAB+sp.SizeBA)*pct/100; k++ {
+						time.Sleep(5 * time.Millisecond)
+					}
+					for _, problem := range []string{"message expired", "blocked by firewall"} {
+						// about a datagram sent by the accepting side towards the dialer ...
+						n1 := fmt.Sprintf(`{"FromNode":%q,"ToNode":%q,"FromService":%q,"ToService":%q,"Problem":%q}`, bid, ids[0], svc, eph, problem)
+						_ = relay.SendMessageWithHopsToLive("unreach", bid, "unreach", []byte(n1), 30)
+						// ... and about one sent by the dialer towards the accepting side
+						n2 := fmt.Sprintf(`{"FromNode":%q,"ToNode":%q,"FromService":%q,"ToService":%q,"Problem":%q}`, ids[0], bid, eph, svc, problem)
+						_ = relay.SendMessageWithHopsToLive("unreach", ids[0], "unreach", []byte(n2), 30)
+						noticesSent += 2
+					}
+				}
+			}
+		}
+	}
 	// re-route: cut the link the routing table of a is using once ~30 % went through
 	rerouted := false
 	if sp.Kind == "reroute" {
@@ -475,6 +509,11 @@ wait:
 		} else {
 			run.Inconclusive(fmt.Sprintf("C03 trial %d: the route did not change during the transfer", sp.Idx))
 		}
+	} else if sp.Kind == "notices" {
+		run.Count("expiry_and_firewall_notices_delivered_mid_stream", int64(noticesSent))
+		if noticesSent > 0 {
+			run.Distinct(fmt.Sprintf("notices|h%d", sp.Hops))
+		}
 	} else if sp.Kind == "faulty" {
 		if dropped.Load()+dupped.Load() > 0 || sp.Reorder {
 			run.Distinct(fmt.Sprintf("faulty|h%d|%s|loss%.2f|dup%.2f|re%v|d%d", sp.Hops, sp.Mode, sp.E2ELoss, sp.Dup, sp.Reorder, sp.DelayMs))
@@ -489,7 +528,7 @@ wait:
 
 func runC03(tier string, args []string) {
 	run := ev.New("C03", tier, "exploration")
-	run.Rule("transfers of PRNG streams (seeded sizes 0 B..256 KiB under faults, 8 MiB clean; seeded write sizes 1 B..256 KiB; simplex, full duplex, request/response with half-close) over chains of 1-4 hops whose links drop (end-to-end loss <= 15 %), duplicate, delay and reorder data datagrams; re-route trials cut the link in use while an equal alternative exists; bridged trials go through a control-service `connect` session. The reader regenerates the stream and compares offset by offset; EOF placement checked; an independent ping probe decides whether errors/stalls count. distinct_nontrivial = distinct fault/shape classes in which datagrams were actually dropped, duplicated or reordered, plus re-routes that changed the next hop mid-transfer")
+	run.Rule("transfers of PRNG streams (seeded sizes 0 B..256 KiB under faults, 8 MiB clean; seeded write sizes 1 B..256 KiB; simplex, full duplex, request/response with half-close) over chains of 1-4 hops whose links drop (end-to-end loss <= 15 %), duplicate, delay and reorder data datagrams; re-route trials cut the link in use while an equal alternative exists; bridged trials go through a control-service `connect` session; notices trials deliver 'message expired' / 'blocked by firewall' notices about datagrams of the connection to both ends mid-stream (what a datagram expiring or being rejected in transit produces). The reader regenerates the stream and compares offset by offset; EOF placement checked; an independent ping probe decides whether errors/stalls count. distinct_nontrivial = distinct fault/shape classes in which datagrams were actually dropped, duplicated or reordered, plus re-routes that changed the next hop mid-transfer")
 	run.Assume("bounded loss = end-to-end 15 % at most (QUIC itself gives up far beyond); a stall/error is judged only if the largest gap between successful pings of the end nodes stayed below 7 s")
 	rng := rand.New(rand.NewSource(run.Seed*67867967 + 3))
 	specs := []*c03Spec{}
@@ -502,6 +541,7 @@ func runC03(tier string, args []string) {
 	add("clean", run.Pick(3, 12))
 	add("reroute", run.Pick(4, 40))
 	add("bridged", run.Pick(4, 40))
+	add("notices", run.Pick(3, 30))
 	if len(args) >= 2 && args[0] == "--trial" {
 		var idx int
 		fmt.Sscan(args[1], &idx)
